@@ -420,7 +420,21 @@ func (c *c05cell) allNeeds() []int {
 
 // c05run executes one cell with one requester bitmap in a fresh world and applies the
 // oracle.  It returns (allowed-by-table, label) for evidence.
-func c05run(rt *rapid.T, cell *c05cell, bits hlref.Access) bool {
+// via: "" = the requester's account file holds bits at login; "setuser" = the account starts with the governing
+// bits flipped, is logged in twice (the requester is the later session) and an administrator's set-user
+// changes the privileges to bits while both sessions are connected.
+func c05run(rt *rapid.T, cell *c05cell, bits hlref.Access, via ...string) bool {
+	setuser := len(via) > 0 && via[0] == "setuser"
+	bits0 := bits
+	if setuser {
+		for _, n := range cell.allNeeds() {
+			if bits0.Has(n) {
+				bits0.Clear(n)
+			} else {
+				bits0.Set(n)
+			}
+		}
+	}
 	holdsAll := true
 	for _, n := range cell.allNeeds() {
 		if !bits.Has(n) {
@@ -430,7 +444,7 @@ func c05run(rt *rapid.T, cell *c05cell, bits hlref.Access) bool {
 	opt := hlsim.Options{Agreement: "agreement", Board: "old board\r", Accounts: []hlsim.AccountSpec{
 		acct("admin", "Admin", "adminpw", allAccess), acct("obs", "Obs", "obspw", allAccess),
 		acct("victim", "Victim", "vpw", hlref.Access{}), acct("spare", "Spare", "sparepw", hlref.Access{}),
-		{Login: "req", Name: "ReqAcct", Password: "reqpw", Access: bits},
+		{Login: "req", Name: "ReqAcct", Password: "reqpw", Access: bits0},
 	}}
 	inWorld(rt, opt, func(rt *rapid.T, w *hlsim.World) {
 		for _, d := range []string{"dir", "Uploads", "Drop Box", "other"} {
@@ -448,8 +462,19 @@ func c05run(rt *rapid.T, cell *c05cell, bits hlref.Access) bool {
 		x.admin = loginAs(rt, w, "10.0.0.1:1", "admin", "adminpw", "admin")
 		x.obs = loginAs(rt, w, "10.0.0.2:1", "obs", "obspw", "obs")
 		x.victim = loginAs(rt, w, "10.0.0.3:1", "victim", "vpw", "victim")
-		x.req = loginAs(rt, w, "10.0.0.4:1", "req", "reqpw", "req")
 		x.adminID, x.victimID, x.reqID = 1, 3, 4
+		if setuser {
+			other := loginAs(rt, w, "10.0.0.5:1", "req", "reqpw", "req-first-session")
+			defer other.TakeInbox()
+			x.reqID = 5
+		}
+		x.req = loginAs(rt, w, "10.0.0.4:1", "req", "reqpw", "req")
+		if setuser {
+			if r := x.admin.Request(hlref.TranSetUser, fld(hlref.FUserLogin, hlref.Obfuscate([]byte("req"))), sfld(hlref.FUserName, "ReqAcct"), fld(hlref.FUserAccess, bits[:]), fld(hlref.FUserPassword, []byte{0})); !okReply(r) {
+				rt.Fatalf("harness: admin set-user failed")
+			}
+			settle(0)
+		}
 		// news fixture and a chat, built through the protocol by the administrator
 		mustOK := func(r *hlref.Tran, what string) {
 			if !okReply(r) {
@@ -584,15 +609,16 @@ func c05prop(ev *evid.Rec) func(rt *rapid.T) {
 			}
 		}
 		bits = bits.Defined() // the account file stores defined privileges only
-		allowed := c05run(rt, cell, bits)
+		via := rapid.SampledFrom([]string{"", "", "setuser"}).Draw(rt, "via")
+		allowed := c05run(rt, cell, bits, via)
 		lab := "hasnt"
 		if allowed {
 			lab = "has"
 		}
 		nd := len(definedSet(bits))
-		ev.Case(evid.Hash(cell.name, bits[:]), nd != 0 && nd != 40, "cell:"+cell.name+":"+lab, "mode:"+mode)
+		ev.Case(evid.Hash(cell.name, bits[:], via), nd != 0 && nd != 40, "cell:"+cell.name+":"+lab, "mode:"+mode, "via:"+via)
 		if ev.WantSample() {
-			ev.Sample(map[string]any{"cell": cell.name, "governing": cell.effects, "requester_privileges": definedSet(bits), "expected": lab})
+			ev.Sample(map[string]any{"cell": cell.name, "governing": cell.effects, "requester_privileges": definedSet(bits), "expected": lab, "privileges_set_by": map[string]string{"": "account file at login", "setuser": "administrator set-user while logged in twice"}[via]})
 		}
 	}
 }
